@@ -31,8 +31,13 @@ type Fault struct {
 // gRPC client/stream pair, with the given faults injected.
 type Remote struct {
 	Faults []Fault
-	calls  atomic.Int32
-	Calls  []int32 // filled after the run: number of calls made
+	// Limit > 0: the in-process tier2 (one service for all the calls of the request, as in a deployment) refuses
+	// a call while Limit others are in flight ("service currently overloaded"), for real
+	Limit   uint64
+	svcOnce sync.Once
+	svc     *service.Tier2Service
+	calls   atomic.Int32
+	Calls   []int32 // filled after the run: number of calls made
 }
 
 type fakeClient struct {
@@ -102,7 +107,8 @@ func (f *fakeClient) ProcessRange(ctx context.Context, in *pbssinternal.ProcessR
 		close(ch)
 		return cs, nil
 	}
-	svc := service.VerifNewTier2(f.cfg.streamFactory(true), 0)
+	f.remote.svcOnce.Do(func() { f.remote.svc = service.VerifNewTier2(f.cfg.streamFactory(true), f.remote.Limit) })
+	svc := f.remote.svc
 	go func() {
 		defer close(ch)
 		defer srvCancel()
